@@ -64,3 +64,29 @@ def isColouring (edges : List (Nat × Nat)) (col : Nat → Nat) (k : Nat) (vs : 
 
 end Puzzles
 end Rsbdd
+
+namespace Rsbdd
+namespace Puzzles
+
+/-- all completed grids of root `r` that keep the givens, by backtracking over the cells in
+order (each cell gets a number not yet used in its row, column and box) -/
+def solveSudoku (r : Nat) (givens : List (Option Nat)) : List (List Nat) :=
+  let sq := r * r
+  let rec go (k : Nat) (partials : List (List Nat)) : List (List Nat) :=
+    match k with
+    | 0 => partials
+    | k + 1 =>
+      go k (partials.flatMap (fun p =>
+        let c := p.length
+        let cands := match givens[c]? with
+          | some (some d) => if 1 ≤ d && d ≤ sq then [d] else []
+          | _ => (List.range sq).map (· + 1)
+        cands.filterMap (fun d =>
+          let clash := p.zipIdx.any (fun (d', c') =>
+            d' == d && (c' / sq == c / sq || c' % sq == c % sq ||
+              ((c' / sq) / r == (c / sq) / r && (c' % sq) / r == (c % sq) / r)))
+          if clash then none else some (p ++ [d]))))
+  go (sq * sq) [[]]
+
+end Puzzles
+end Rsbdd
